@@ -15,6 +15,7 @@ import Ww.Driver.C20
 import Ww.Driver.C19
 import Ww.Driver.C09
 import Ww.Driver.C04
+import Ww.Driver.Retry
 open Ww.Driver
 
 def dispatch (l : Line) : List Verdict :=
@@ -50,6 +51,7 @@ def dispatch (l : Line) : List Verdict :=
   | "ratelimit" => handleRateLimit l
   | "sched" => handleSched l
   | "lockwait" => handleLockWait l
+  | "retry" => handleRetry l
   | "fault" => handleFault l
   | "faultdry" => [Verdict.ok]
   | "start20" => handleStart20 l
